@@ -391,7 +391,7 @@ def gen_yaml(r):
     sp = SP.Spelling(r)
     sp.force_names = True
     spec = SP.schema_spec(SchemaT(rules), sp)
-    return SchemaT(rules), spec, sorted(sp.dims), d, r.choice(["block", "flow"]), r.coin()
+    return SchemaT(rules), spec, sorted(sp.dims), d, r.choice(["block", "flow", "literal"]), r.coin()
 
 
 def body_yaml(case):
@@ -410,7 +410,23 @@ def body_yaml(case):
     y.default_flow_style = style == "flow"
     buf = io.StringIO()
     try:
-        y.dump(spec, buf)
+        if style == "literal":
+            # multi-line strings written as block literals (`|`), as a person writing a schema file would
+            from ruamel.yaml.scalarstring import LiteralScalarString
+
+            def lit(x):
+                if isinstance(x, dict):
+                    return {k: lit(v) for k, v in x.items()}
+                if isinstance(x, list):
+                    return [lit(v) for v in x]
+                if isinstance(x, str) and "\n" in x:
+                    return LiteralScalarString(x)
+                return x
+
+            y = YAML()
+            y.dump(lit(spec), buf)
+        else:
+            y.dump(spec, buf)
         text = buf.getvalue()
         back = YAML(typ="safe").load(text)
     except Exception:
